@@ -15,7 +15,7 @@ from dataclasses import dataclass, field
 from typing import Any, Dict, List, Optional, Tuple
 
 from ..consteval import ConstEval, EnumVal, StructVal, enum_members, record_fields
-from ..core import AnalysisError, ap, atoms, calls, conditions, kw, norm, src, walk, FUNC_TYPES
+from ..core import AnalysisError, ap, atoms, calls, clone_ast, conditions, kw, norm, src, walk, FUNC_TYPES
 
 OBJ = "hippolyzer/lib/base/objects.py"
 TMPL = "hippolyzer/lib/base/templates.py"
@@ -331,9 +331,9 @@ class FastInterp:
             class _Sub(ast.NodeTransformer):
                 def visit_Name(self, node):
                     if node.id in mapping:
-                        return _copy.deepcopy(mapping[node.id])
+                        return clone_ast(mapping[node.id])
                     return node
-            return self.gate_of(_Sub().visit(_copy.deepcopy(body)))
+            return self.gate_of(_Sub().visit(clone_ast(body)))
         if isinstance(test, ast.BinOp) and isinstance(test.op, ast.BitAnd):
             for a, b in ((test.left, test.right), (test.right, test.left)):
                 pa = ap(a)
